@@ -35,7 +35,7 @@ LEVEL = 'proof'
 # adaptive step sizes that rounding difference is amplified by the step-size controller (dt_new divides by an
 # error estimate that is a difference of close numbers).  Observed maxima are recorded in cov per class.
 TOL = {
-    'fixed':    {'time': 1e-13, 'val': 1e-12, 'dt_new': 1e-9},     # observed: time 2.2e-16, values 0, dt_new 0
+    'fixed':    {'time': 1e-13, 'val': 1e-13, 'dt_new': 1e-9},     # observed: time 2.2e-16, values/residuals 5.8e-16, dt_new 0
     'adaptive': {'time': 1e-9, 'val': 1e-7, 'dt_new': 1e-6},       # observed: time 7.6e-13, values 1.0e-10, dt_new 1.8e-10
 }
 
@@ -302,6 +302,23 @@ def core_configs():
         C('t3heat2', P=3, problem='heat', nvars=[16, 8], nlev=2, predict_type='pfasst_burnin', dt=0.05, Tend=0.3),
         C('t3heat3', P=3, problem='heat', nvars=[16, 8, 4], nlev=3, predict_type='pfasst_burnin', dt=0.05, Tend=0.3,
           nsweeps=[2, 1, 1]),
+        # level-dependent options that both controllers read: sweeps per level, nodes per level, QI per level, finter
+        C('t1ml3s121', P=1, nlev=3, nodes_per_level=[5, 3, 2], M=5, nsweeps=[1, 2, 1], maxiter=4, restol=1e-9),
+        C('t3ml3s121', P=3, nlev=3, nodes_per_level=[5, 3, 2], M=5, nsweeps=[1, 2, 1], predict_type='pfasst_burnin',
+          maxiter=4, restol=1e-9, QI=['LU', 'IE', 'IE']),
+        C('t1ml3s221', P=1, problem='heat', nvars=[16, 8, 4], nlev=3, nsweeps=[2, 2, 1], dt=0.05, Tend=0.15, maxiter=4,
+          restol=1e-9, finter=True),
+        C('t3ml3s221', P=3, problem='heat', nvars=[16, 8, 4], nlev=3, nsweeps=[2, 2, 1], predict_type='fine_only', dt=0.05,
+          Tend=0.3, maxiter=4, restol=1e-9, finter=True, QI=['LU', 'IE', 'MIN']),
+        C('t2ml3s131', P=2, nlev=3, nodes_per_level=[4, 3, 2], M=4, nsweeps=[1, 3, 1], predict_type=None, maxiter=3,
+          restol=1e-9, Tend=0.5),
+        C('t2ml2s31', P=2, nlev=2, nodes_per_level=[3, 2], nsweeps=[3, 1], QI=['IE', 'LU'], predict_type='pfasst_burnin',
+          maxiter=4, restol=1e-9, Tend=0.5),
+        C('t3jac_s2', P=3, mssdc_jac=True, nsweeps=[2], maxiter=4, restol=1e-9),
+        C('n3ml3s121', kind='node', M=3, problem='heat', nvars=[16, 8, 4], nlev=3, QI='IEpar', nsweeps=[1, 2, 1], dt=0.05,
+          Tend=0.1, maxiter=3, restol=1e-9),
+        C('b2x2ml3s221', kind='both', P=2, M=2, problem='heat', nvars=[16, 8, 4], nlev=3, QI='IEpar', nsweeps=[2, 2, 1],
+          dt=0.05, Tend=0.1, maxiter=3, restol=1e-9, predict_type='pfasst_burnin', finter=True),
         C('t3alld', P=3, all_to_done=True),
         C('t3jaccu', P=3, mssdc_jac=True, quad_type='GAUSS', do_coll_update=True, lambdas=[[-3.0, 1.0]], maxiter=3, restol=1e-8),
         C('t3gscu', P=3, mssdc_jac=False, quad_type='GAUSS', do_coll_update=True, lambdas=[[-3.0, 1.0]], maxiter=3, restol=1e-8),
@@ -381,10 +398,16 @@ def random_config(rng, i):
     c['nlev'] = nlev
     if nlev > 1 and kind != 'node':
         c['predict_type'] = rng.choice([None, 'fine_only', 'pfasst_burnin'])
-    if nlev > 1 and kind != 'time':
+    if nlev > 1:
         c['finter'] = rng.random() < 0.5
+        # per-level sweep counts: 1-3 on the fine and middle levels, 1 on the coarsest (required by it_coarse)
+        c['nsweeps'] = [rng.randint(1, 3) for _ in range(nlev - 1)] + [1]
+        if kind == 'time' and rng.random() < 0.5:
+            c['QI'] = [rng.choice(['IE', 'LU', 'MIN']) for _ in range(nlev)]
     if nlev == 1:
         c['mssdc_jac'] = rng.random() < 0.5
+        if c['mssdc_jac'] or c.get('P', 1) == 1:
+            c['nsweeps'] = [rng.randint(1, 3)]     # Gauss-Seidel MSSDC sweeps in it_coarse: exactly one sweep
     c['all_to_done'] = rng.random() < 0.25
     feat = rng.choice(['none', 'none', 'adapt', 'adaptlin', 'art', 'artdt'])
     if c['initial_guess'] == 'zero' and c['restol'] != -1 and feat == 'none' and False:
@@ -399,6 +422,8 @@ def random_config(rng, i):
         c['maxiter'] = rng.randint(3, 5)
         c['all_to_done'] = False
         c['mssdc_jac'] = False
+        if nlev == 1 and c.get('P', 1) > 1:
+            c.pop('nsweeps', None)
         c['initial_guess'] = 'spread'
     elif feat in ('art', 'artdt') and kind != 'node':
         k = rng.randint(1, 3)
@@ -452,7 +477,7 @@ FINDING_VIOLATIONS = ('unmatched-send', 'unmatched-recv', 'recv-never-completed'
 
 def feature_of(cfg):
     f = []
-    for k in ('adaptivity', 'restarting', 'spread', 'art_restarts', 'art_dt', 'all_to_done', 'predict_type', 'finter'):
+    for k in ('adaptivity', 'restarting', 'spread', 'art_restarts', 'art_dt', 'all_to_done', 'predict_type', 'finter', 'nsweeps'):
         if cfg.get(k):
             f.append(k)
     return '+'.join(f) or 'plain'
@@ -621,7 +646,12 @@ def run(ck):
             if m['ranks'] is None:
                 pass    # bit-identical to the first schedule's results (digest), which are compared below
             else:
-                bad = compare(cfg, ser, m, stats)
+                run_stats = {}
+                bad = compare(cfg, ser, m, run_stats)
+                if not bad:     # calibration statistics only from agreeing runs (known findings would pollute them)
+                    for cls, st in run_stats.items():
+                        for k, v in st.items():
+                            stats.setdefault(cls, {})[k] = max(stats.get(cls, {}).get(k, 0.0), v)
                 # report the FIRST discrepancy (earliest step, fields in causal order) as the root, the rest as detail;
                 # the (known, serial-side) restart-counter aliasing is reported separately so that it cannot hide others
                 ria = [b for b in bad if b[0] == 'restarts_in_a_row']
